@@ -492,6 +492,49 @@ def check_reader(chk) -> None:
             chk.error("null-agreement", fi.where, "how blank optional PDB fields are read could not be established (line loop not evaluable, pinned form not found)")
 
 
+REORDERING = {"sort_values", "sort_index", "sample", "reindex", "nlargest", "nsmallest", "sort", "reverse"}
+
+
+def check_row_order(chk) -> None:
+    """The writers emit the rows in the order of the table: nothing on the way from the parameter to the row loop reorders it.
+    write_pdb is also evaluated on tables in no particular order (c09e); for write_cif, whose body builds mmcif library objects,
+    this reading of the calls made on the table (the parameter and the names it is assigned to) is the decision."""
+    repo = chk.repo
+    chk.robust.add("row-order")
+    for name in ("write_pdb", "write_cif"):
+        if not repo.has_func(M, name):
+            continue
+        fi = repo.func(M, name)
+        if not fi.node.args.args:
+            continue
+        tables = {fi.node.args.args[0].arg}
+        changed = True
+        while changed:
+            changed = False
+            for st in astq.walk_no_nested(fi.node):
+                if isinstance(st, ast.Assign) and len(st.targets) == 1 and isinstance(st.targets[0], ast.Name) and st.targets[0].id not in tables:
+                    root = st.value
+                    while isinstance(root, (ast.Call, ast.Attribute, ast.Subscript)):
+                        root = root.func if isinstance(root, ast.Call) else root.value
+                    if isinstance(root, ast.Name) and root.id in tables and not (isinstance(st.value, ast.Call) and isinstance(st.value.func, ast.Attribute) and st.value.func.attr in ("get", "iterrows", "itertuples", "to_dict", "tolist", "unique", "max", "min")):
+                        tables.add(st.targets[0].id)
+                        changed = True
+        bad = []
+        for c in astq.walk_no_nested(fi.node):
+            if isinstance(c, ast.Call) and isinstance(c.func, ast.Attribute) and c.func.attr in REORDERING:
+                root = c.func.value
+                while isinstance(root, (ast.Call, ast.Attribute, ast.Subscript)):
+                    root = root.func if isinstance(root, ast.Call) else root.value
+                if isinstance(root, ast.Name) and root.id in tables and not (isinstance(c.func.value, ast.Attribute) and c.func.value.attr == "columns"):
+                    bad.append(c)
+            elif isinstance(c, ast.Subscript) and isinstance(c.slice, ast.Slice) and c.slice.step is not None and isinstance(c.slice.step, ast.UnaryOp) and isinstance(c.value, ast.Attribute) and c.value.attr in ("iloc", "loc") and isinstance(c.value.value, ast.Name) and c.value.value.id in tables:
+                bad.append(c)
+        if bad:
+            chk.violation("row-order", fi.site(bad[0]), f"`{norm(bad[0])[:80]}` reorders the table before its rows are written: unless the rows happen to be in that order already, the file holds a permutation of the table (record positions and serial order change), and reading it back does not give the table that was written", K(fi, "row-order"))
+        else:
+            chk.ok("row-order", fi.where, f"{name}: the rows are written in the order of the table (no sort / sample / reindex / reversal of the table or of a table derived from it)")
+
+
 class _Relabel:
     """A view of the check that records a sibling property's rule under this property's rule id (only the listed rules)."""
 
@@ -596,6 +639,7 @@ def run(chk) -> None:
     c09e.check_atom_data_keys(chk)
     check_field_maps(chk)
     check_reader(chk)
+    check_row_order(chk)
     check_splitter(chk)
     for rule, n in (("writer-layout", 17), ("writer-reader-columns", 15), ("ter-line", 5), ("record-order", 6), ("field-map-pdb-to-cif", 2), ("field-map-cif-to-pdb", 1), ("value-domain", 1)):
         chk.floor(rule, n)
